@@ -880,6 +880,20 @@ def _isnan(ex, fv_, args, kwargs, fr, node):
     return vbool(smt.is_nan(ex.coerce(v, "fl").t))
 
 
+@handler("numpy.isfinite", "math.isfinite")
+def _isfinite(ex, fv_, args, kwargs, fr, node):
+    v = args[0]
+    if v.ty.kind in ("arr", "elem"):
+        raise Unsupported("isfinite on arrays")
+    return vbool(smt.is_fin(ex.coerce(v, "fl").t))
+
+
+@handler("numpy.isinf", "math.isinf")
+def _isinf(ex, fv_, args, kwargs, fr, node):
+    v = ex.coerce(args[0], "fl")
+    return vbool(z3.Or(smt.is_pinf(v.t), smt.is_ninf(v.t)))
+
+
 @handler("range")
 def _range(ex, fv_, args, kwargs, fr, node):
     if len(args) == 1:
